@@ -39,6 +39,13 @@ package control
 //@   ensures  err == nil && r.curr == g ==> stateOf(g, t.To) && ((t.From == nil) == (old(r.curr) == nil)) && (old(r.curr) != nil ==> stateOf(old(r.curr), t.From))
 //@   # existing gates are not touched
 //@   ensures  forall x *Gate[R] :: old(__in(r.gates, x)) ==> x.authority == old(x.authority) && x.position == old(x.position) && x.subject == old(x.subject) && x.region == old(x.region)
+//@   # opening a gate on an uncontrolled (hence empty) region always succeeds
+//@   ensures  old(r.curr) == nil ==> err == nil
+//@   # the region keeps its range, its controller and its gate set's identity
+//@   ensures  r.controller == old(r.controller) && __eq(r.gates, old(r.gates))
+//@   # a refused open has no effect on the region's range; a successful one extends it to cover the gate's range
+//@   ensures  err != nil ==> r.timeRange == old(r.timeRange)
+//@   ensures  err == nil ==> r.timeRange == old(r.timeRange).Union(cfg.TimeRange)
 //@   modifies r, r.gates
 //@   loop 0 invariant forall x *Gate[R] :: __seen(x) ==> x.subject.Key != cfg.Subject.Key
 
@@ -117,3 +124,52 @@ package control
 //@ # exported views of a gate for callers in other packages
 //@ spec func SpecGateOK[R Resource](g *Gate[R]) bool = g != nil && g.region != nil && (g.region.curr == nil || g.region.controller != nil)
 //@ spec func SpecGateResource[R Resource](g *Gate[R]) R = g.region.resource
+
+//@ # ---------------------------------------------------------------- region bookkeeping of the controller (C05)
+//@ # "for each channel region ... exactly one writer controls": the controller keeps its regions
+//@ # ordered by start and pairwise non-overlapping; opening a gate joins the one region that overlaps
+//@ # the requested range or inserts a new region for it, and leaves every other region alone.
+//@ spec func ciAlloc[R Resource](c *Controller[R]) bool = forall i int :: 0 <= i && i < len(c.regions) ==> c.regions[i] != nil && __alloc(c.regions[i]) && __alloc(c.regions[i].gates)
+//@ spec func ciRI[R Resource](c *Controller[R]) bool = forall i int :: 0 <= i && i < len(c.regions) ==> RI(c.regions[i])
+//@ spec func ciRange[R Resource](c *Controller[R]) bool = forall i int :: 0 <= i && i < len(c.regions) ==> c.regions[i].timeRange.Start >= 0 && c.regions[i].timeRange.Start <= c.regions[i].timeRange.End
+//@ spec func ciOrder[R Resource](c *Controller[R]) bool = forall i int, j int :: 0 <= i && i < j && j < len(c.regions) ==> c.regions[i] != c.regions[j] && !__eq(c.regions[i].gates, c.regions[j].gates) && c.regions[i].timeRange.Start <= c.regions[j].timeRange.Start && !telem.SpecOvl(c.regions[i].timeRange, c.regions[j].timeRange)
+//@ # no gate counter is about to wrap (2^64 opens on one region)
+//@ spec func ciCounters[R Resource](c *Controller[R]) bool = forall i int :: 0 <= i && i < len(c.regions) ==> c.regions[i].counter < 18446744073709551615
+//@ spec func CI[R Resource](c *Controller[R]) bool = ciAlloc(c) && ciRI(c) && ciRange(c) && ciOrder(c)
+//@ func (c *Controller[R]) unsafeInsertNewRegion(t telem.TimeRange, resource R) (r *region[R])
+//@   tparams R Resource
+//@   overflow off
+//@   requires CI(c) && t.Start >= 0 && t.Start <= t.End
+//@   requires forall i int :: 0 <= i && i < len(c.regions) ==> !telem.SpecOvl(c.regions[i].timeRange, t)
+//@   ensures  ciAlloc(c)
+//@   ensures  ciRI(c)
+//@   ensures  ciRange(c)
+//@   ensures  ciOrder(c)
+//@   ensures  r != nil && __fresh(r) && r.timeRange == t && r.counter == 0 && r.curr == nil && r.controller == c && len(c.regions) == old(len(c.regions)) + 1
+//@   ensures  exists p int :: 0 <= p && p < len(c.regions) && c.regions[p] == r && (forall i int :: 0 <= i && i < p ==> c.regions[i] == old(c.regions[i])) && (forall i int :: p < i && i < len(c.regions) ==> c.regions[i] == old(c.regions[i-1]))
+//@   modifies &c.regions
+//@ # OpenGate: the gate joins the one region overlapping the requested range, or a new region is
+//@ # inserted for it; the controller invariant is kept and no other region's gates change
+//@ ignorepkg github.com/synnaxlabs/x/config
+//@ ignorepkg github.com/synnaxlabs/x/errors
+//@ func (c *Controller[R]) OpenGate(cfg GateConfig[R]) (g *Gate[R], t Transfer, err error)
+//@   tparams R Resource
+//@   overflow off
+//@   pragma opaque_func_values OpenResource
+//@   requires CI(c) && ciCounters(c) && cfg.TimeRange.Start >= 0 && cfg.TimeRange.Start <= cfg.TimeRange.End
+//@   ensures  ciAlloc(c)
+//@   ensures  ciRI(c)
+//@   ensures  ciRange(c)
+//@   # regions stay ordered by start and pairwise disjoint - also when the joined region is widened
+//@   ensures  ciOrder(c)
+//@   ensures  err == nil ==> g != nil && g.region != nil && telem.SpecOvl(g.region.timeRange, old(cfg.TimeRange)) && (exists i int :: 0 <= i && i < len(c.regions) && c.regions[i] == g.region)
+//@   # a refused request leaves every region exactly as it was: same regions, same ranges, same
+//@   # gates, same controller
+//@   ensures  err != nil ==> sameRegions(c.regions, old(c.regions)) && (forall i int :: 0 <= i && i < len(c.regions) ==> c.regions[i].timeRange == old(c.regions[i].timeRange) && c.regions[i].curr == old(c.regions[i].curr) && (forall x *Gate[R] :: __in(c.regions[i].gates, x) == old(__in(c.regions[i].gates, x))))
+//@   modifies *
+//@   # config.New overlays the given configuration on the defaults: the time range is the caller's and the flags are set
+//@   assume_after "cfg, err = config.New(DefaultGateConfig[R](), cfg)" err == nil ==> cfg.TimeRange == old(cfg.TimeRange) && cfg.ErrIfControlled != nil && cfg.ErrOnUnauthorizedOpen != nil
+//@   loop 0 modifies nothing
+//@   loop 0 invariant existing != nil ==> (exists i int :: 0 <= i && i < len(c.regions) && c.regions[i] == existing)
+//@   loop 0 invariant existing == nil ==> (forall i int :: 0 <= i && i < __ri(0) ==> !telem.SpecOvl(c.regions[i].timeRange, cfg.TimeRange))
+//@   loop 0 invariant existing != nil ==> (forall i int :: 0 <= i && i < __ri(0) && c.regions[i] != existing ==> !telem.SpecOvl(c.regions[i].timeRange, cfg.TimeRange)) && telem.SpecOvl(existing.timeRange, cfg.TimeRange)
